@@ -54,6 +54,8 @@ struct thr {
 	int in_sig;
 	int frozen_was;
 	unsigned long yields;
+	unsigned long op_stores; int sb_cp_pending, demote_at_next;
+	int stack_shared;	/* another thread has accessed an object on this thread's stack (e.g. a urcu_wait node) */
 	unsigned long run_since_switch;	/* scheduling points taken since this thread last yielded, blocked or was preempted */
 	unsigned long empt[256]; int nempt;	/* steps at which this thread's store buffer became empty */
 };
@@ -82,6 +84,9 @@ static long prio_list[MAXLIST]; static int nprio;
 static long dprio_list[MAXLIST]; static int ndprio;
 static struct { int tid, op; unsigned long k; } cps[MAXLIST]; static int ncp;
 static struct { int tid; unsigned long j; int len; } delays[MAXLIST]; static int ndelay;
+/* delay2: the k-th bufferable store a thread executes during program operation `op` is held for `len` of its scheduling points; with cp set the
+ * thread is preempted right after its next atomic load while that store is still buffered - the store-buffer litmus window (store; load; others run) */
+static struct { int tid, op; unsigned long k; int len, cp; } delays2[MAXLIST]; static int ndelay2;
 static struct { int tid; unsigned long k; } sigs[MAXLIST]; static int nsig;
 static struct { char kind[24]; long k; } faults[MAXLIST]; static int nfault;
 static uint64_t rw_rng; static int rw_permille;
@@ -194,7 +199,7 @@ void ds_op_begin(int i)
 {
 	/* C17: when the solo thread has run its whole program the case is over (thread exit paths may legitimately block on suspended threads) */
 	if (i == -1 && ds_i_am_solo()) { in_rt = 1; die("ok", "solo thread finished its program"); }
-	if (self) { self->cur_op = i; self->op_pts = 0; }
+	if (self) { self->cur_op = i; self->op_pts = 0; self->op_stores = 0; }
 }
 void *ds_raw_alloc(size_t n) { return __real_calloc(1, n); }
 
@@ -254,8 +259,16 @@ static void heap_violation(const void *a, int n, int w, int st)
 		w ? "write" : "read", n, a, st == 2 ? "FREED" : "unallocated", h ? (void *)(h + 1) : NULL, h ? h->size : 0, h ? h->site : NULL, h ? h->fsite : NULL,
 		self ? self->id : -1, self ? self->cur_op : -1);
 }
+static inline void note_foreign_stack_access(const void *a)
+{
+	/* addresses above the mmap base only: thread stacks live there; arena, globals and the main program's heap do not */
+	if ((uintptr_t)a < 0x7f0000000000ul || !self) return;
+	for (int i = 0; i < nT; i++)
+		if (&T[i] != self && T[i].stack_hi && (const char *)a < T[i].stack_hi && (const char *)a >= T[i].stack_hi - (256 << 10)) T[i].stack_shared = 1;
+}
 static inline void check_access(const void *a, int n, int w)
 {
+	if (active) note_foreign_stack_access(a);
 	if (!in_arena(a) || !active) return;
 	int st = SHADOW_BASE[((const char *)a - ARENA_BASE) / 8];
 	if (st != 1) { in_rt = 1; heap_violation(a, n, w, st); }
@@ -382,6 +395,7 @@ static void sched_point(void)
 	in_rt = 1;
 	ds_step++; me->lsteps++; me->op_pts++;
 	check_progress();
+	if (me->demote_at_next) { me->demote_at_next = 0; if (me->sbn) { me->prio = --min_prio; flags |= 1ull << DSF_SB_WINDOW; } }
 	sb_tick(me);
 	for (int i = 0; i < ncp; i++)
 		if (tmatch(me, cps[i].tid) && ((cps[i].op == me->cur_op && cps[i].k == me->op_pts) || (cps[i].op == -1 && cps[i].k == me->lsteps)))
@@ -515,6 +529,7 @@ static void plain_read(const void *a, int n)
 		for (int i = 0; i < me->sbn; i++)
 			if ((uintptr_t)a < me->sb[i].addr + me->sb[i].size && me->sb[i].addr < (uintptr_t)a + n) last = i;
 		for (int i = 0; i <= last; i++) sb_flush_one(me);
+		if (last < 0 && me->sb_cp_pending && me->sbn && !own_stack(me, a)) { me->sb_cp_pending = 0; me->demote_at_next = 1; }	/* load of another location while a store is held */
 		in_rt = 0;
 	}
 }
@@ -524,7 +539,9 @@ static void plain_write(const void *a, int n)
 	if (!active || !me || in_rt) return;
 	if (!own_stack(me, a)) { sched_point(); writes_epoch++; last_progress_step = ds_step; }
 	check_access(a, n, 1);
-	if (me->sbn) { in_rt = 1; sb_drain(me); in_rt = 0; }
+	/* a plain store cannot be buffered by the engine (the instrumented code writes memory itself), so older buffered stores are flushed first to keep
+	 * store order - except for stores to the thread's own stack while no other thread has ever touched that stack: nobody can observe their order */
+	if (me->sbn && !(own_stack(me, a) && !me->stack_shared)) { in_rt = 1; sb_drain(me); in_rt = 0; }
 }
 #define RW(n) void __tsan_read##n(void *a) { plain_read(a, n); } void __tsan_write##n(void *a) { plain_write(a, n); } \
  void __tsan_unaligned_read##n(void *a) { plain_read(a, n); } void __tsan_unaligned_write##n(void *a) { plain_write(a, n); } \
@@ -555,8 +572,9 @@ static int other_buffers(struct thr *me, uintptr_t a, int n)
 }
 static int store_delay(struct thr *me)
 {
-	unsigned long j = me->nstores++;
+	unsigned long j = me->nstores++, k = me->op_stores++;
 	for (int i = 0; i < ndelay; i++) if (tmatch(me, delays[i].tid) && delays[i].j == j) return delays[i].len;
+	for (int i = 0; i < ndelay2; i++) if (tmatch(me, delays2[i].tid) && delays2[i].op == me->cur_op && delays2[i].k == k) { if (delays2[i].cp) me->sb_cp_pending = 1; return delays2[i].len; }
 	if (rd_pct && (int)(xs(&rd_rng) % 100) < rd_pct) return 1 + (int)(xs(&rd_rng) % rd_maxlen);
 	return 0;
 }
@@ -710,6 +728,7 @@ long __wrap_syscall(long nr, ...)
 		in_rt = 1; sb_drain(me);
 		long ret = 0;
 		long kf = nth_call[FC_FUTEX]++;
+		if (trace) fprintf(stderr, "[%6lu E%d] futex(%p, %s, %d) word=%d\n", ds_step, me->id, (void *)uaddr, op == FUTEX_WAIT ? "WAIT" : op == FUTEX_WAKE ? "WAKE" : "?", val, *uaddr);
 		/* ENOSYS: either the system call does not exist at all (every call), or the documented spurious ENOSYS of FUTEX_WAIT (mips/parisc signal-restart bug) */
 		(void)kf;
 		if (fault_hit("futex_enosys", -2)) { errno = ENOSYS; in_rt = 0; return -1; }
@@ -949,6 +968,7 @@ static void parse_case(char *text)
 		else if (!strcmp(w, "dprio")) { int m; while (ndprio < MAXLIST && sscanf(rest, "%ld%n", &dprio_list[ndprio], &m) == 1) { ndprio++; rest += m; } }
 		else if (!strcmp(w, "cp")) { if (ncp < MAXLIST && sscanf(rest, "%d %d %lu", &cps[ncp].tid, &cps[ncp].op, &cps[ncp].k) == 3) ncp++; }
 		else if (!strcmp(w, "delay")) { if (ndelay < MAXLIST && sscanf(rest, "%d %lu %d", &delays[ndelay].tid, &delays[ndelay].j, &delays[ndelay].len) == 3) ndelay++; }
+		else if (!strcmp(w, "delay2")) { if (ndelay2 < MAXLIST && sscanf(rest, "%d %d %lu %d %d", &delays2[ndelay2].tid, &delays2[ndelay2].op, &delays2[ndelay2].k, &delays2[ndelay2].len, &delays2[ndelay2].cp) == 5) ndelay2++; }
 		else if (!strcmp(w, "sig")) { if (nsig < MAXLIST && sscanf(rest, "%d %lu", &sigs[nsig].tid, &sigs[nsig].k) == 2) nsig++; }
 		else if (!strcmp(w, "fault")) { if (nfault < MAXLIST && sscanf(rest, "%23s %ld", faults[nfault].kind, &faults[nfault].k) == 2) nfault++; }
 		else if (!strcmp(w, "rw")) { unsigned long s; if (sscanf(rest, "%lu %d", &s, &rw_permille) == 2) rw_rng = s * 0x9E3779B97F4A7C15ull + 0x1234567ull; }
